@@ -38,7 +38,9 @@ CONSTANTS Shape, NMin, NMax,
           MaxTamper,      \* 1 in generator configs, 2 in model-checking configs
           RecMode,        \* "pick": Recover(sel) after Pick steps (one state per sel);
                           \* "all" : one step logging Recover for EVERY sel (compact generator)
-          CheckDecIndex   \* TRUE = design with dec.S.I = enc.S.I required
+          CheckDecIndex,  \* TRUE = design with dec.S.I = enc.S.I required
+          Rels            \* shape "dleq": relations between the two bases of a statement,
+                          \* subset of {"indep", "HeqG", "HnegG", "H2G", "Hid", "Gid"}
 
 VARIABLES phase, n, t, enc, dec, key, comAlt, nt, sel, hist
 vars == <<phase, n, t, enc, dec, key, comAlt, nt, sel, hist>>
@@ -204,14 +206,16 @@ Log(r) == hist' = Append(hist, r)
 
 Deal ==
   /\ phase = "init"
-  /\ \E nn \in NMin..NMax, tt \in 1..NMax :
+  \* DLEQ statements also over related / degenerate bases (H = G - hence xG = xH -, H = -G, H = 2G, H or G the
+  \* identity): the verdict relation does not mention the bases - verify iff untouched, whatever they are
+  /\ \E nn \in NMin..NMax, tt \in 1..NMax, rl \in (IF Shape = "dleq" THEN Rels ELSE {"indep"}) :
        /\ tt <= nn
        /\ (Shape \in {"batch", "dleq"} => tt = 1)
        /\ n' = nn /\ t' = tt
        /\ enc' = [p \in 1..nn |-> CASE Shape = "batch" -> HonestItem(p) [] Shape = "dleq" -> HonestPrf(p) [] OTHER -> HonestEnc(p)]
        /\ dec' = [p \in 1..nn |-> NoDec]
        /\ key' = [p \in 1..nn |-> p]
-       /\ Log([op |-> "deal", n |-> nn, t |-> tt])
+       /\ Log([op |-> "deal", n |-> nn, t |-> tt, rel |-> rl])
   /\ phase' = IF Shape = "dec" THEN "honest" ELSE "tamper"
   /\ UNCHANGED <<comAlt, nt, sel>>
 
